@@ -124,6 +124,37 @@ pub struct EdgeShapes {
 	pub k: BTreeMap<String, EmptyTupleStruct>,
 }
 
+/// Fields that are left out of the rendering when they are empty (absent keys come back as the
+/// default), in a struct and in a struct variant.
+#[derive(Clone, Debug, PartialEq, Serialize, Deserialize)]
+pub struct Skipping {
+	pub a: u8,
+	#[serde(skip_serializing_if = "Option::is_none")]
+	pub b: Option<String>,
+	#[serde(default, skip_serializing_if = "Vec::is_empty")]
+	pub c: Vec<u8>,
+	#[serde(skip_serializing_if = "Option::is_none")]
+	pub d: Option<F64>,
+}
+
+#[derive(Clone, Debug, PartialEq, Serialize, Deserialize)]
+pub enum SkippingEnum {
+	V {
+		#[serde(skip_serializing_if = "Option::is_none")]
+		x: Option<i8>,
+		y: bool,
+		#[serde(skip_serializing_if = "Option::is_none")]
+		z: Option<Box<Skipping>>,
+	},
+	#[serde(rename = "all")]
+	AllOptional {
+		#[serde(skip_serializing_if = "Option::is_none")]
+		p: Option<u8>,
+		#[serde(default, skip_serializing_if = "String::is_empty")]
+		q: String,
+	},
+}
+
 /// A linked chain (nesting as deep as the chain is long) and a tree of lists.
 #[derive(Clone, Debug, PartialEq, Serialize, Deserialize)]
 pub struct Chain {
@@ -343,6 +374,8 @@ pub enum Datum {
 	Tree(Tree),
 	Case(Vec<CaseEnum>),
 	CaseKeys(BTreeMap<CaseEnum, u8>),
+	Skip(Skipping),
+	SkipEnum(Vec<SkippingEnum>),
 }
 
 macro_rules! gen_int {
@@ -479,7 +512,7 @@ fn gen_named(rng: &mut Rng, depth: usize) -> Named {
 }
 
 pub fn gen_datum(rng: &mut Rng, depth: usize) -> Datum {
-	let n = if depth >= 3 { 20 } else { 66 };
+	let n = if depth >= 3 { 20 } else { 68 };
 	let short = |rng: &mut Rng| -> usize { [0usize, 1, 1, 1, 2, 3][rng.below(6)] };
 	let sub = |rng: &mut Rng| gen_datum(rng, depth + 1);
 	let len = |rng: &mut Rng| [0, 1, 2, 3, 6][rng.below(5)];
@@ -605,6 +638,25 @@ pub fn gen_datum(rng: &mut Rng, depth: usize) -> Datum {
 		}
 		63 => Datum::Case((0..short(rng) + 1).map(|_| [CaseEnum::Kb, CaseEnum::KB, CaseEnum::Mb(1), CaseEnum::MB(2), CaseEnum::Lower][rng.below(5)]).collect()),
 		64 => Datum::CaseKeys([CaseEnum::Kb, CaseEnum::KB, CaseEnum::Lower].iter().enumerate().filter(|_| rng.chance(2, 3)).map(|(i, k)| (*k, i as u8)).collect()),
+		65 => Datum::Skip(gen_skipping(rng)),
+		66 => Datum::SkipEnum(
+			(0..short(rng) + 1)
+				.map(|_| {
+					if rng.chance(1, 2) {
+						SkippingEnum::V {
+							x: if rng.chance(1, 2) { Some(gen_int!(rng, i8)) } else { None },
+							y: rng.chance(1, 2),
+							z: if rng.chance(1, 2) { Some(Box::new(gen_skipping(rng))) } else { None },
+						}
+					} else {
+						SkippingEnum::AllOptional {
+							p: if rng.chance(1, 2) { Some(gen_int!(rng, u8)) } else { None },
+							q: if rng.chance(1, 2) { String::new() } else { gen_str(rng) },
+						}
+					}
+				})
+				.collect(),
+		),
 		_ => Datum::Edge(EdgeShapes {
 			a0: [],
 			m: EmptyTupleStruct(),
@@ -620,6 +672,15 @@ pub fn gen_datum(rng: &mut Rng, depth: usize) -> Datum {
 			t: ((), [], EmptyTupleStruct()),
 			k: (0..short(rng)).map(|_| (gen_str(rng), EmptyTupleStruct())).collect(),
 		}),
+	}
+}
+
+fn gen_skipping(rng: &mut Rng) -> Skipping {
+	Skipping {
+		a: gen_int!(rng, u8),
+		b: if rng.chance(1, 2) { Some(gen_str(rng)) } else { None },
+		c: if rng.chance(1, 2) { Vec::new() } else { vec![1, 2] },
+		d: if rng.chance(1, 2) { Some(F64(gen_f64(rng))) } else { None },
 	}
 }
 
@@ -844,7 +905,7 @@ pub fn run_c16(cfg: &Config) -> i32 {
 		cfg,
 		EvidenceMeta {
 			id: "C16",
-			rule: "a case is an instance of the derive-annotated type family (65 top-level shapes: all integer widths at their bounds, f32/f64 incl. non-finite and subnormal, char, strings that look like numbers, unit, unit/newtype/tuple/named structs, an enum with unit/renamed/newtype/tuple/struct/empty-struct variants, options, tuples, arrays, sequences, newtype structs over sequences / one-element tuples and arrays / options / maps / enums / strings / unit, internally / adjacently tagged and untagged enums and flattened structs with unit-like fields, zero-length arrays, tuple structs and tuple variants without fields, linked chains up to 300 long and trees of lists up to 150 deep, enums whose variant names differ in capitalization only (as values and as map keys), collect_str and bytes types, maps keyed by String, i8..i64, u8..u64, char, unit-variant enum, integer newtype; recursive nesting) generated from the seed; checked: (1) from_value(to_value(x)) == x whenever serde_json's own Value round trip returns x, (2) to_value(x) has the same JSON shape as serde_json::to_value(x), (3) from_value(from_serde_json(serde_json::to_value(x))) == x, (4) from_value(parse(serde_json::to_string(x))) == x, under the same proviso; plus raw f64/f32 bit patterns through to_value/from_value; distinct by hash of the Debug rendering",
+			rule: "a case is an instance of the derive-annotated type family (67 top-level shapes: all integer widths at their bounds, f32/f64 incl. non-finite and subnormal, char, strings that look like numbers, unit, unit/newtype/tuple/named structs, an enum with unit/renamed/newtype/tuple/struct/empty-struct variants, options, tuples, arrays, sequences, newtype structs over sequences / one-element tuples and arrays / options / maps / enums / strings / unit, internally / adjacently tagged and untagged enums and flattened structs with unit-like fields, zero-length arrays, tuple structs and tuple variants without fields, linked chains up to 300 long and trees of lists up to 150 deep, enums whose variant names differ in capitalization only (as values and as map keys), structs and struct variants whose empty fields are left out of the rendering, collect_str and bytes types, maps keyed by String, i8..i64, u8..u64, char, unit-variant enum, integer newtype; recursive nesting) generated from the seed; checked: (1) from_value(to_value(x)) == x whenever serde_json's own Value round trip returns x, (2) to_value(x) has the same JSON shape as serde_json::to_value(x), (3) from_value(from_serde_json(serde_json::to_value(x))) == x, (4) from_value(parse(serde_json::to_string(x))) == x, under the same proviso; plus raw f64/f32 bit patterns through to_value/from_value; distinct by hash of the Debug rendering",
 			exhaustive: false,
 			assumptions: vec![
 				"serde_json 1.0.x with default features is the stated reference; data serde_json itself cannot round-trip (non-finite floats, Some(None), ...) are excluded from the round-trip relations".into(),
@@ -1271,6 +1332,59 @@ pub fn run_c17(cfg: &Config) -> i32 {
 		rep
 	});
 	total.merge(rep);
+	// values nested deeper than any text parser's recursion limit (129..400 levels), Value to Value only
+	// (serde_json's text reader stops at 128 levels, the crate's own deserializer promises no such limit);
+	// arrays of 31..66 small integers around the byte range (what a serializer may take for a byte string)
+	{
+		let mut rep = Report::new();
+		let depths: &[usize] = if cfg.san { &[129, 200] } else { &[127, 128, 129, 130, 200, 300, 400] };
+		for &d in depths {
+			for shape in 0..3usize {
+				let mut r = RVal::Arr(vec![RVal::Num("1".into()), RVal::Str("s".into())]);
+				for l in 0..d {
+					r = match (shape, l % 2) {
+						(0, _) | (2, 0) => RVal::Arr(vec![r]),
+						_ => RVal::Obj(vec![("k".into(), r)]),
+					};
+				}
+				rep.evaluations += 1;
+				rep.distinct_by_construction(1);
+				rep.max("deepest_value_to_value_nesting", d as u64);
+				let v = from_rval(&r);
+				let v2 = v.clone();
+				let h = std::thread::Builder::new().stack_size(256 << 20).spawn(move || {
+					let ser = guard(|| json_syntax::to_value(&v2).map(|x| x == v2).map_err(|e| e.to_string()));
+					let de = guard(|| json_syntax::from_value::<Value>(v2.clone()).map(|x| x == v2).map_err(|e| e.to_string()));
+					crate::monitor::conv::drop_value_iter(v2);
+					(ser, de)
+				});
+				match h.ok().and_then(|h| h.join().ok()) {
+					Some((Ok(Ok(true)), Ok(Ok(true)))) => rep.count("deep_values_through_both_value_paths", 1),
+					Some((ser, de)) => rep.violation(
+						"C17:deep-value",
+						format!("a value nested {} levels (shape {}): to_value gives {:?} (Ok(true) = equal), from_value::<Value> gives {:?}", d, shape, ser, de),
+						json!({"sub": "deep-value", "depth": d, "shape": shape}),
+					),
+					None => rep.inconclusive.push(format!("deep value thread for depth {} did not finish", d)),
+				}
+				crate::monitor::conv::drop_value_iter(v);
+				crate::oracle::rfc8259::drop_iter(r);
+			}
+		}
+		for n in [31usize, 32, 33, 40, 64, 66] {
+			for special in ["256", "255", "257", "-1", "0", "1.0", "1e2", "256.0", "65536", "4294967296"] {
+				for pos in [0usize, n / 2, n - 1] {
+					let items: Vec<RVal> = (0..n).map(|j| RVal::Num(if j == pos { special.to_string() } else { ((j * 37) % 256).to_string() })).collect();
+					rep.distinct_by_construction(1);
+					c17_one(&mut rep, &RVal::Arr(items.clone()));
+					if pos == 0 {
+						c17_one(&mut rep, &RVal::Obj(vec![("blob".into(), RVal::Arr(items)), ("n".into(), RVal::Num(n.to_string()))]));
+					}
+				}
+			}
+		}
+		total.merge(rep);
+	}
 	// objects with n distinct keys in which one of them (each position in turn) occurs again at the end
 	{
 		let sizes: Vec<usize> = if cfg.san { vec![3, 33] } else { vec![1, 2, 15, 16, 17, 31, 32, 33, 34, 63, 64, 65, 66] };
@@ -1667,6 +1781,30 @@ pub fn run_c18(cfg: &Config) -> i32 {
 		rep
 	});
 	total.merge(rep);
+
+	// containers of 1..70 and 127..130 scalars with one nested member (an empty array, an empty object, a
+	// one-item array) at every position in turn
+	{
+		let sizes: Vec<usize> = if cfg.san { vec![33, 65] } else { (1..=70).chain(127..=130).collect() };
+		let rep = parallel(cfg.threads, sizes.len(), |si| {
+			let mut rep = Report::new();
+			let n = sizes[si];
+			for p in 0..n {
+				let nested = [RVal::Arr(vec![]), RVal::Obj(vec![]), RVal::Arr(vec![RVal::Num("1".into())])][(p + n) % 3].clone();
+				let items: Vec<RVal> = (0..n).map(|j| if j == p { nested.clone() } else { RVal::Num(j.to_string()) }).collect();
+				for r in [RVal::Arr(items.clone()), RVal::Obj(items.iter().enumerate().map(|(j, x)| (format!("k{:03}", j), x.clone())).collect())] {
+					rep.distinct_by_construction(1);
+					c18_from_js(&mut rep, &r);
+					if let Ok(sj) = serde_json::from_str::<serde_json::Value>(&doc_of(&r)) {
+						c18_from_sj(&mut rep, &sj);
+					}
+					rep.count("family:one-nested-member-at-every-position", 1);
+				}
+			}
+			rep
+		});
+		total.merge(rep);
+	}
 
 	// arrays (and objects) whose neighbouring members are number literals related to each other: a long
 	// literal next to each of its prefixes that is itself a number, in both orders, and repeated
